@@ -212,3 +212,26 @@ def gen_empty_rule(rep, u, fname="ini_buf_gen"):
     (rep.proved if bad is None else rep.violated)("R-AGREE", fn, "empty-store-generates", desc, "" if bad is None else
                                                   "buf_size 0 is refused with EINVAL at line %s although the calculated size of an empty store is 0" % bad, bad)
     return 1
+
+
+def value_overlap_rule(rep, u, fname="ini_val_set", param="val"):
+    """the value handed to ini_val_set may be (part of) the value the store returned for the same key - ini_val_get yields
+    pointers into the records: the copy of the caller's value into the record tolerates overlap (memmove)"""
+    fn = _need(u, fname)
+    rep.functions.add(fname)
+    pid = [p["id"] for p in fn.params if p["n"] == param]
+    if not pid:
+        raise driver.AnalysisBroken("%s: parameter %s not found" % (fname, param))
+    n = 0
+    for pos, root, c, ps in fn.calls({"memcpy", "memmove", "__builtin_memcpy", "__builtin___memcpy_chk", "__builtin_memmove", "__builtin___memmove_chk"}):
+        s_ = core.base_ref(c["args"][1])
+        d_ = core.strip_casts(c["args"][0])
+        if s_ is None or s_.get("id") != pid[0]:
+            continue
+        n += 1
+        mv = "memmove" in c["fn"]
+        desc = "%s: the caller's value is copied into the record with memmove" % fname
+        (rep.proved if mv else rep.violated)("R-INPLACE", fn, "value-copy-may-overlap", desc, "" if mv else
+                                             "memcpy(%s, %s, ..): ini_val_get() returns a pointer into the record; setting a key to its own trimmed value replaces in place "
+                                             "and copies between overlapping ranges (ASan: memcpy-param-overlap)" % (key(d_)[:30], param), c.get("ln"))
+    return n
